@@ -18,13 +18,21 @@ predicates of Spec/ConnUpdates.lean on what the server did:
 * class `effect-K`  : a valid update of kind K was not applied as described;
 * class `idempotent-K` : an update that only restates the state changed it or was announced;
 * class `invalid-K` : an update naming unknown / protected objects changed the state or was not refused;
-* class `invariant` : the index dump violates the schema-level invariant.
+* class `invariant` : the index dump violates the schema-level invariant;
+* class `model-spelling` : the flags of a message as `message_flags_v2` spells them (section `SP:` of the
+                      dump) are not what `setMessageFlagsSp` / `fsOf` (Model/ConnFlagSpelling.lean) say.
+
+Flags in steps are tokens that stand for a spelling (`spellOf`, the same function as `cuFlagLong` of the
+harness); the model of Model/ConnUpdates.lean runs on their names (`keyTok`).  A message spec
+`<prefix>#<a>-<b>:…` stands for the messages `<prefix><a>` … `<prefix><b>`.
 
 After every step the judge continues from the *observed* index (literal tags carried over by remote
 id), so one disagreement does not cascade.  Formats: see harness/o_connupd.go.
 -/
 import GluonModel.Spec.ConnUpdates
+import GluonModel.Model.ConnFlagSpelling
 import GluonModel.Generated.Facts.Ack
+import GluonModel.Generated.Facts.Chunk
 
 namespace Gluon.Driver.ConnUpdD
 
@@ -120,15 +128,85 @@ def parseDump (secs : List String) (lits : RID → String) : Option DB :=
     | _ => none
   | _, _, _, _ => none
 
+/-- section `SP:` of a dump: the flags of every live message as `message_flags_v2` spells them -/
+def parseSP (secs : List String) : Option (List (RID × List String)) :=
+  (secs.find? (fun s => s.startsWith "SP:")).map (fun s =>
+    (splitNE (s.drop 3).toString ";").filterMap (fun it =>
+      match it.splitOn "=" with
+      | [rid, fl] => some (rid, splitNE fl "+")
+      | _ => none))
+
+def spGet (sp : List (RID × List String)) (rid : RID) : List String :=
+  match sp.find? (fun e => e.1 == rid) with
+  | some e => e.2
+  | none => []
+
+/-- the sections of a dump that `dumpDB` prints -/
+def indexSecs (secs : List String) : List String := secs.filter (fun s => !s.startsWith "SP:")
+
 /-! ### parsing steps -/
 
-def parseFlagsU (s : String) : List Flag := dedup (splitNE s ",")
-def parseMbs (s : String) : List RID := (splitNE s "+").map decRid
+/-- the name of a flag token / of a spelling as the dump shows it: lower-case, no leading backslash
+    (`cuFlagShort` of the harness) -/
+def keyTok (t : String) : Flag :=
+  let l := lowerAscii t
+  if l.startsWith "\\" then (l.drop 1).toString else l
+
+def sysFlags : List (String × String) :=
+  [("seen", "\\Seen"), ("flagged", "\\Flagged"), ("answered", "\\Answered"), ("draft", "\\Draft"),
+   ("deleted", "\\Deleted"), ("recent", "\\Recent")]
+
+/-- the spelling a flag token is sent in (`cuFlagLong` of the harness): a system flag's lower-case short
+    name = the spelling of the imap constants; with a leading backslash or an upper-case letter = as
+    written; keywords as written -/
+def spellOf (t : String) : String :=
+  let body := if t.startsWith "\\" then (t.drop 1).toString else t
+  match sysFlags.find? (fun e => e.1 == lowerAscii body) with
+  | some e => if t.startsWith "\\" || body != lowerAscii body then "\\" ++ body else e.2
+  | none => t
+
+/-- the remote ids a message spec stands for: `p#3-5` = p3, p4, p5 -/
+def expandRid (rid : String) : List String :=
+  match rid.splitOn "#" with
+  | [pre, range] =>
+    (match range.splitOn "-" with
+     | [a, b] =>
+       let lo := nat! a
+       let hi := nat! b
+       if hi + 1 - lo > 100001 then [] else (List.range (hi + 1 - lo)).map (fun i => pre ++ toString (lo + i))
+     | _ => [rid])
+  | _ => [rid]
+
+def rawToks (s : String) : List String := splitNE s ","
+def parseFlagsU (s : String) : List Flag := dedup ((rawToks s).map keyTok)
+def parseMbs (s : String) : List RID := (splitNE s "+").flatMap (fun m => (expandRid m).map decRid)
+
+/-- the messages of one spec, each with the flag tokens as written -/
+def parseNewMsgs (s : String) : Option (List (NewMsg × List String)) :=
+  match s.splitOn ":" with
+  | [rid, fl, lit, mbs] =>
+    let flags := parseFlagsU fl
+    let boxes := parseMbs mbs
+    let raw := rawToks fl
+    some ((expandRid rid).map (fun r => ({ rid := r, flags := flags, lit := lit, mboxes := boxes }, raw)))
+  | _ => none
 
 def parseNewMsg (s : String) : Option NewMsg :=
-  match s.splitOn ":" with
-  | [rid, fl, lit, mbs] => some { rid := rid, flags := parseFlagsU fl, lit := lit, mboxes := parseMbs mbs }
+  match parseNewMsgs s with
+  | some [(m, _)] => some m
   | _ => none
+
+def parseBatch (specs : String) : Option (List (NewMsg × List String)) :=
+  ((specs.splitOn "/").mapM parseNewMsgs).map List.flatten
+
+/-- (remote id, flag tokens as written) of every message an update step lists -/
+def rawFlagsOf (w : List String) : List (RID × List String) :=
+  match w with
+  | ["MSC", _, specs] => ((parseBatch specs).getD []).map (fun p => (p.1.rid, p.2))
+  | ["MMU", rid, _, fl] => [(rid, rawToks fl)]
+  | ["MFU", rid, fl] => [(rid, rawToks fl)]
+  | ["MSU", _, spec] => ((parseNewMsgs spec).getD []).map (fun p => (p.1.rid, p.2))
+  | _ => []
 
 def parseUpdate (db : DB) (w : List String) : Option Update :=
   match w with
@@ -143,8 +221,8 @@ def parseUpdate (db : DB) (w : List String) : Option Update :=
       else nat! (ref.drop 1).toString
     some (.mailboxIDChanged iid (decRid rid))
   | ["MSC", ig, specs] =>
-    match (specs.splitOn "/").mapM parseNewMsg with
-    | some ms => some (.messagesCreated (ig == "1") ms)
+    match parseBatch specs with
+    | some ms => some (.messagesCreated (ig == "1") (ms.map (·.1)))
     | none => none
   | ["MMU", rid, mbs, fl] => some (.messageMailboxesUpdated rid (parseMbs mbs) (parseFlagsU fl))
   | ["MFU", rid, fl] => some (.messageFlagsUpdated rid (parseFlagsU fl))
@@ -215,6 +293,8 @@ structure JState where
   prevU : Option Update := none
   /-- kind of the last update if it was refused (acknowledged with an error) and no update came since -/
   prevRefused : Option String := none
+  /-- the flags as the index spelled them in the last dump (none: no dump with a section `SP:` yet) -/
+  sp : Option (List (RID × List String)) := none
 
 def litsOf (db : DB) (rid : RID) : String :=
   match db.msgByRid rid with
@@ -271,23 +351,28 @@ def gcDeaths (db : DB) (obs : List Observer) (died : List Nat) : DB :=
   go db [] order
 
 /-- what the update named (one word, for the `target=` field of an acknowledgement failure) -/
+def shortList (l : List String) : String :=
+  if l.length > 6 then joinOr (l.take 3) "+" ++ s!"+…({l.length}-in-all)+" ++ joinOr (l.drop (l.length - 2)) "+" else joinOr l "+"
+
 def targetOf : Update → String
   | .mailboxCreated rid name => s!"mailbox:{rid},name:{name.replace " " "_"}"
   | .mailboxDeleted rid => s!"mailbox:{rid}"
   | .mailboxUpdated rid name => s!"mailbox:{rid},name:{name.replace " " "_"}"
   | .mailboxIDChanged iid rid => s!"mailbox-internal-id:{iid},new-id:{rid}"
-  | .messagesCreated _ ms => "messages:" ++ "/".intercalate (ms.map (fun m => s!"{m.rid}>{joinOr m.mboxes "+"}"))
-  | .messageMailboxesUpdated rid mbs _ => s!"message:{rid},mailboxes:{joinOr mbs "+"}"
+  | .messagesCreated _ ms =>
+    "messages:" ++ "/".intercalate ((ms.take 6).map (fun m => s!"{m.rid}>{shortList m.mboxes}")) ++
+      (if ms.length > 6 then s!"/…({ms.length}-in-all)" else "")
+  | .messageMailboxesUpdated rid mbs _ => s!"message:{rid},mailboxes:{shortList mbs}"
   | .messageFlagsUpdated rid _ => s!"message:{rid}"
   | .messageIDChanged iid rid => s!"message-internal-id:{iid},new-id:{rid}"
   | .messageDeleted rid => s!"message:{rid}"
-  | .messageUpdated m _ => s!"message:{m.rid},mailboxes:{joinOr m.mboxes "+"}"
+  | .messageUpdated m _ => s!"message:{m.rid},mailboxes:{shortList m.mboxes}"
   | .uidValidityBumped => "-"
   | .noop => "-"
   | .unknown => "-"
 
 /-- the cells of the kind × variant table this update falls into, judged on the index `db` it met -/
-def variantsOf (cfg : Cfg) (db : DB) (u : Update) (valid restates dup : Bool) : List String :=
+def variantsOf (cfg : Cfg) (db : DB) (u : Update) (valid restates dup : Bool) (otherSpelling otherOrder : Bool := false) : List String :=
   let unknownMb (b : RID) : Bool := b != cfg.recoveryRID && !db.known b
   let unknown : Bool := match u with
     | .mailboxDeleted rid => unknownMb rid
@@ -319,7 +404,22 @@ def variantsOf (cfg : Cfg) (db : DB) (u : Update) (valid restates dup : Bool) : 
   (if protId then ["protected-id"] else []) ++
   (if protName then ["protected-name"] else []) ++
   (if dup then ["duplicate"] else []) ++
-  (if restates then ["restating"] else [])
+  (if restates then ["restating"] else []) ++
+  (if restates && otherSpelling then ["restating-other-spelling"] else []) ++
+  (if restates && otherOrder then ["restating-other-order"] else [])
+
+/-- classes of batch sizes relative to `db.ChunkLimit` (regenerated: `Facts.chunkLimit`; a row of a mailbox
+    table binds two values, so `AddMessagesToMailbox` cuts at half of it) -/
+def sizeClass (c : Nat) : String :=
+  let h := Gluon.Facts.chunkLimit / 2
+  if h == 0 then "no-chunk-limit"
+  else if c < h then "lt-half" else if c == h then "eq-half"
+  else if c % h == 0 then "multiple-of-half" else "short-last-chunk"
+
+/-- the largest number of listed messages that name one and the same mailbox -/
+def maxPerMailbox (ms : List NewMsg) : Nat :=
+  let boxes := (ms.flatMap (·.mboxes)).eraseDups
+  boxes.foldl (fun acc b => Nat.max acc (ms.countP (fun m => m.mboxes.contains b))) 0
 
 /-- an acknowledgement failure: which one, of which kind of update, naming what -/
 def ackFailure (ack head : String) : Option (String × String) :=
@@ -381,13 +481,61 @@ def stepU (st : JState) (k : Nat) (w : List String) (head : String) (secs : List
       | .messageUpdated m true =>
         if (pre.msgByRid m.rid).isNone then (mscPossibleErrs st.cfg pre true [m]).map (fun e => showErr (some e)) else []
       | _ => []
-    let st := if ack != showErr r.err && !ack.startsWith "ack2" then
+    -- `MailboxTranslateRemoteIDs` translates a list of mailbox ids chunk by chunk (`… IN (…)` per chunk of
+    -- `db.ChunkLimit`): a known id that is listed in two different chunks comes back twice and the message is added
+    -- to that mailbox twice (UNIQUE constraint).  The model translates the list as a whole (duplicates collapse): not
+    -- modelled; reported as a failure of the property under its own cause, not as model-ack / model-state.
+    let dupAcrossChunks : Bool := match u with
+      | .messageMailboxesUpdated _ mbs _ =>
+        let lim := Gluon.Facts.chunkLimit
+        lim > 0 && mbs.length > lim &&
+          (mbs.zipIdx.any (fun p => pre.known p.1 && mbs.zipIdx.any (fun q => q.1 == p.1 && q.2 / lim != p.2 / lim)))
+      | _ => false
+    let chunkDup := dupAcrossChunks && ack == "err:constraint" && r.err.isNone
+    let st := if chunkDup then bump st "mmu.duplicate-id-across-chunks" else st
+    let st := if ack != showErr r.err && !ack.startsWith "ack2" && !chunkDup then
                 (if possible.contains ack then bump st "msc.other-map-order-error"
                  else fail st k "model-ack" s!"{kind}: acknowledged {ack}, model {showErr r.err}") else st
+    let spObs := parseSP secs
+    let secs := indexSecs secs
     let obsDump := "~".intercalate secs
-    let st := if dumpDB post != obsDump then
+    let st := if dumpDB post != obsDump && !chunkDup then
                 fail st k "model-state" s!"{kind}: index after the update differs; observed {obsDump} model {dumpDB post}" else st
     let obsDB := (parseDump secs (litsOf r.db)).getD post
+    -- the spellings: what `imap.FlagSet` / `user.setMessageFlags` do with the flags as written
+    let raw := (rawFlagsOf w).map (fun p => (p.1, p.2.map spellOf))
+    let firstRaw (rid : RID) : List String := match raw.find? (fun p => p.1 == rid) with | some p => p.2 | none => []
+    let st := match st.sp, spObs with
+      | some sp0, some sp1 =>
+        if ack != "ok" || r.err.isSome then st
+        else
+          let expected : List (RID × List String) := match u with
+            | .messageFlagsUpdated rid _ =>
+              if (pre.msgByRid rid).isSome then [(rid, (setMessageFlagsSp (spGet sp0 rid) (firstRaw rid)).1)] else []
+            | .messageMailboxesUpdated rid _ _ =>
+              if (pre.msgByRid rid).isSome then [(rid, (setMessageFlagsSp (spGet sp0 rid) (firstRaw rid)).1)] else []
+            | .messageUpdated m _ =>
+              (match pre.msgByRid m.rid with
+               | some g =>
+                 if g.lit == m.lit then [(m.rid, (setMessageFlagsSp (spGet sp0 m.rid) (firstRaw m.rid)).1)]
+                 else [(m.rid, fsOf (firstRaw m.rid))]
+               | none => if (r.db.msgByRid m.rid).isSome then [(m.rid, fsOf (firstRaw m.rid))] else [])
+            | .messagesCreated _ ms =>
+              -- a new message gets the flags of its first occurrence that is not skipped (recovery mailbox listed)
+              let creating := (ms.zip raw).filter (fun p => !p.1.mboxes.contains st.cfg.recoveryRID)
+              ((creating.map (·.1.rid)).eraseDups.filter (fun rid => (pre.msgByRid rid).isNone && (r.db.msgByRid rid).isSome)).map
+                (fun rid => (rid, fsOf (match creating.find? (fun p => p.1.rid == rid) with | some p => p.2.2 | none => [])))
+            | _ => []
+          match expected.find? (fun e => sortStr e.2 != sortStr (spGet sp1 e.1)) with
+          | some e =>
+            fail st k "model-spelling" s!"{kind}: message {e.1} has the flags {joinOr (sortStr (spGet sp1 e.1)) "+"} in the index, imap.FlagSet / setMessageFlags on the spellings give {joinOr (sortStr e.2) "+"} (before: {joinOr (spGet sp0 e.1) "+"})"
+          | none => if expected.isEmpty then st else bump st "spelling.compared"
+      | _, _ => st
+    let otherSpelling := match st.sp with
+      | some sp0 => raw.any (fun p => p.2.any (fun s => (spGet sp0 p.1).any (fun t => flagKey t == flagKey s && t != s)))
+      | none => false
+    let otherOrder := (match u with | .messagesCreated .. => false | _ => true) &&
+      (rawFlagsOf w).any (fun p => let ks := p.2.map keyTok; ks != sortStr ks.eraseDups)
     let staleCopy := obsDB.mboxes.any (fun m => m.rows.any (fun r =>
       match obsDB.msgByIid r.msg with
       | some g => g.rid != r.rid
@@ -407,7 +555,7 @@ def stepU (st : JState) (k : Nat) (w : List String) (head : String) (secs : List
     let obsCmp := if died.isEmpty then obsDB else obsDB  -- a dying observer only triggers gc; effects are compared modulo ghosts below
     let st := bump st s!"ack.{(showErr r.err).replace ":" "-"}.{kind}"
     -- the kind × variant table, and "the pipeline goes on": what came right after a refused update
-    let st := (variantsOf st.cfg pre u valid restates dup).foldl (fun st v => bump st s!"t.{kind}.{v}") st
+    let st := (variantsOf st.cfg pre u valid restates dup otherSpelling otherOrder).foldl (fun st v => bump st s!"t.{kind}.{v}") st
     let st := match st.prevRefused with
       | some pk =>
         let st := bump st "pipe.update-after-refused"
@@ -420,14 +568,21 @@ def stepU (st : JState) (k : Nat) (w : List String) (head : String) (secs : List
         (match pre.msgByRid m.rid with
          | none => bump st "msu.unknown"
          | some g => if g.lit == m.lit then bump st "msu.samelit" else bump st "msu.newlit")
-      | .messagesCreated _ ms => bump st (if ms.length > 1 then "msc.batch" else "msc.single")
+      | .messagesCreated _ ms =>
+        let st := bump st (if ms.length > 1 then "msc.batch" else "msc.single")
+        if valid && !restates then
+          bump (bump st s!"msc.size.one-mailbox.{sizeClass (maxPerMailbox ms)}")
+            (if ms.length > Gluon.Facts.chunkLimit then "msc.size.total.gt-limit" else "msc.size.total.le-limit")
+        else st
       | _ => st
     let st := if !died.isEmpty then
         (if (r.db.msgs.any (·.deleted)) then (if post.msgs.any (·.deleted) then bump st "gc.blocked-or-held" else bump st "gc.collected") else st)
       else st
     let st := if valid && !restates then
         let st := bump { st with nValid := st.nValid + 1 } s!"valid.{kind}"
-        if ack != "ok" then fail st k s!"effect-{kind}" s!"valid update refused: {ack}"
+        if ack != "ok" then
+          fail st k s!"effect-{kind}" (s!"valid update refused: {ack}" ++
+            (if chunkDup then " cause=duplicate-mailbox-id-across-chunks (a known mailbox id is listed in two different chunks of db.ChunkLimit ids: MailboxTranslateRemoteIDs returns it twice, the message is added to the mailbox twice)" else ""))
         else if !effectOK u pre obsCmp && died.isEmpty then
           let cause := match u with
             | .messagesCreated _ ms =>
@@ -475,7 +630,7 @@ def stepU (st : JState) (k : Nat) (w : List String) (head : String) (secs : List
           else st
       | _, _, _ => st) st
     let obs' := st.obs.map (fun o => if died.contains o.idx then { o with alive := false, sel := none } else o)
-    { st with db := obsDB, obs := obs', prevU := some u,
+    { st with db := obsDB, obs := obs', prevU := some u, sp := spObs,
               prevRefused := if ack.startsWith "err:" then some kind else none }
 
 def stepS (st : JState) (k : Nat) (i : Nat) (w : List String) (head : String) (secs : List String) : JState :=
@@ -483,7 +638,10 @@ def stepS (st : JState) (k : Nat) (i : Nat) (w : List String) (head : String) (s
   let toks := headTokens head
   let died := toks.filter (fun t => t.2 == "dead") |>.map (·.1)
   let died := if status.startsWith "dead" then i :: died else died
+  let spObs := if secs.isEmpty then st.sp else parseSP secs
+  let secs := indexSecs secs
   let db' := if secs.isEmpty then st.db else (parseDump secs (litsOf st.db)).getD st.db
+  let st := { st with sp := spObs }
   let st := if !secs.isEmpty && !Inv db' then
       fail st k "invariant" s!"index after client step violates the schema invariant: {"~".intercalate secs}" else st
   let obs0 : List Observer := st.obs
@@ -514,8 +672,9 @@ def stepS (st : JState) (k : Nat) (i : Nat) (w : List String) (head : String) (s
 
 def stepCheck (st : JState) (k : Nat) (secs : List String) : JState :=
   let wire := ((secs.find? (fun s => s.startsWith "W:")).map (fun s => (s.drop 2).toString)).getD "?"
-  let dumpSecs := secs.filter (fun s => !(s.startsWith "W:") && !(s.startsWith "N:"))
-  let st := { st with checks := st.checks + 1 }
+  let spObs := parseSP secs
+  let dumpSecs := secs.filter (fun s => !(s.startsWith "W:") && !(s.startsWith "N:") && !(s.startsWith "SP:"))
+  let st := { st with checks := st.checks + 1, sp := spObs }
   let st := if wireView st.db != wire then
       fail st k "wire" s!"a fresh session sees {wire}, the index says {wireView st.db}" else st
   let post := gc st.db (heldBy st.db st.obs [])
